@@ -209,8 +209,17 @@ def run_items(items, job):
                     v.add(f"{tag}:positions-not-shifted:" + ",".join(kinds[:4]))
                 detail["tokens_expected"] = [str(x) for x in a][:40]
                 detail["tokens_got"] = [str(x) for x in b][:40]
-        # (2)/(3) failures
-        o2 = app.scan_text(doc2, only=allr)
+        # (2)/(3) failures.  Every fourth case enables ONLY the named rule: suppression must not depend on
+        # which other rules happen to be enabled
+        solo = (ci % 4 == 1) and not malformed
+        if solo:
+            ob = app.scan_text(doc, only=[rule])
+            if ob.watchdog or ob.plugin_error or ob.tokenization_error:
+                solo = False
+            else:
+                base_fails = ob.fail_tuples()
+                R.count("solo_rule_cases")
+        o2 = app.scan_text(doc2, only=([rule] if solo else allr))
         if o2.watchdog or o2.tokenization_error or o2.plugin_error:
             if kind2 == "tokens":
                 v.add(f"{tag}:scan-fails-with-pragma")
